@@ -441,14 +441,13 @@ def filter_judged(world, fspec):
 
 
 def filter_oracle_for(world, fspec, lrows, rrows, lkey, rkey, lattr, rattr):
-    if not filter_judged(world, fspec):
-        return None
     return model.filter_oracle(
         lrows, rrows, lkey, rkey, lattr, rattr,
         world.tokspec[fspec['tokenizer']], world.tok_mode(fspec['tokenizer']),
         fspec['kind'], fmeasure(fspec), fspec['threshold'],
         fspec.get('comp_op', '>='), fspec.get('allow_empty', True),
-        fspec.get('allow_missing', False))
+        fspec.get('allow_missing', False),
+        partial=not filter_judged(world, fspec))
 
 
 def candset_pairs(df, c_l, c_r):
@@ -499,8 +498,10 @@ def judge_filter_candset(world, op, out, cand_df, results):
         vs.append(V('candset_rowwise', ['C06'], 'C06 %s index' % comp,
                     'index labels %r, expected %r' %
                     (res.index[:10], exp_index[:10])))
-    # model verdicts
-    if filter_judged(world, fspec):
+    # model verdicts (only the mode-independent ones if the tokenizer is not
+    # in the mode C04 assumes)
+    partial = not filter_judged(world, fspec)
+    if True:
         tokname = fspec['tokenizer']
         tok = model.Tok(world.tokspec[tokname], world.tok_mode(tokname))
         got_pairs = Counter()
@@ -516,7 +517,7 @@ def judge_filter_candset(world, op, out, cand_df, results):
                     ls, rs, lt, rt, fkind, fmeasure(fspec),
                     fspec['threshold'], fspec.get('comp_op', '>='),
                     fspec.get('allow_empty', True),
-                    fspec.get('allow_missing', False))
+                    fspec.get('allow_missing', False), partial)
                 n_in = pairs.count((lk, rk))
                 n_out = got_pairs.get((lk, rk), 0)
                 if v == model.MUST and n_out < n_in:
@@ -542,8 +543,7 @@ def judge_filter_candset(world, op, out, cand_df, results):
 def judge_filter_pair(world, op, out):
     vs = []
     fspec = world.case['filters'][op['filter']]
-    if not filter_judged(world, fspec):
-        return vs
+    partial = not filter_judged(world, fspec)
     fkind = fspec['kind']
     comp = 'filter_pair:%s:%s' % (fkind, fmeasure(fspec))
     tokname = fspec['tokenizer']
@@ -554,7 +554,8 @@ def judge_filter_pair(world, op, out):
     v, kind = model.filter_pair_verdict(
         ls, rs, lt, rt, fkind, fmeasure(fspec),
         fspec['threshold'], fspec.get('comp_op', '>='),
-        fspec.get('allow_empty', True), fspec.get('allow_missing', False))
+        fspec.get('allow_empty', True), fspec.get('allow_missing', False),
+        partial)
     dropped = out.value
     if not isinstance(dropped, (bool,)) and dropped not in (0, 1):
         vs.append(V('filter_pair_type', ['C06'], 'C06 %s return-type' % comp,
@@ -638,7 +639,18 @@ def judge_apply_matcher(world, op, out, cand_df):
                     (len(got_rows), len(exp_cmp)),
                     got=[list(g) for g in got_rows[:8]],
                     expected=[list(e) for e in exp_cmp[:8]]))
-    elif si is not None:
+    if si is not None:
+        for g in got_rows:
+            if g[3] is None and g[1] in lby and g[2] in rby and not (
+                    model.is_missing(lby[g[1]][op['l_attr']]) or
+                    model.is_missing(rby[g[2]][op['r_attr']])):
+                vs.append(V('score', ['C08', 'C05'],
+                            'C08 %s NaN-score-for-present-values' % comp,
+                            'row %r has a NaN score although neither value '
+                            'is missing' % (g[:3],)))
+                break
+    if [g[:3] for g in got_rows] == [e[:3] for e in exp_cmp] and \
+            si is not None:
         for g, e, (n, sc) in zip(got_rows, exp_cmp, exp):
             if sc == 'nan':
                 if g[3] is not None:
